@@ -370,6 +370,15 @@ func (e *Enc) eval(sx *Sx, env *evalEnv) tv {
 			bs = append(bs, fmt.Sprintf("(%s %s)", nm, srt))
 		}
 		body := e.eval(args[1], &n)
+		if h == "forall" && e.ct != nil && e.ct.Opts["forall-patterns"] != "" {
+			var names []string
+			for _, b := range args[0].List {
+				names = append(names, b.List[0].Atom)
+			}
+			if pats := selectPatterns(body.v.T, names); len(pats) > 0 {
+				return tv{Val{fmt.Sprintf("(forall (%s) (! %s %s))", strings.Join(bs, " "), body.v.T, strings.Join(pats, " ")), "Bool"}, nil}
+			}
+		}
 		return tv{Val{fmt.Sprintf("(%s (%s) %s)", h, strings.Join(bs, " "), body.v.T), "Bool"}, nil}
 	case "let":
 		// bindings are substituted (side facts emitted while evaluating the body must not mention a bound name)
@@ -427,6 +436,11 @@ func (e *Enc) eval(sx *Sx, env *evalEnv) tv {
 			return tv{Val{e.bytesExpand(env.heap, x.v.T, k), "B"}, nil}
 		}
 		return tv{Val{e.tokBytes(env.heap, x.v.T), "B"}, nil}
+	case "ghost":
+		// (ghost NAME): an integer ghost variable of the verification (no counterpart in the program state)
+		key := "$s:g:" + args[0].Atom
+		e.heapSort[key] = "Int"
+		return tv{Val{e.heapGet(env.heap, key, "Int"), "Int"}, nil}
 	case "fnid", "fnrecv":
 		x := e.eval(args[0], env)
 		if h == "fnid" {
@@ -611,6 +625,10 @@ func (e *Enc) evalAtom(a string, env *evalEnv) tv {
 				for _, p := range e.w.Pkgs {
 					if p.Pkg == env.pkg {
 						if g, ok := p.Members[a].(*ssa.Global); ok {
+							if e.w.NonNilGlobal[g] {
+								// init-only package-level error value: the same fixed object the code sees when it loads it
+								return tv{Val{app("obj", ilit(globalID("val:"+g.String()))), "Ref"}, o.Type()}
+							}
 							gv := e.val(g)
 							return tv{Val{e.load(env.heap, gv.T, g, o.Type()), e.sortOf(o.Type())}, o.Type()}
 						}
@@ -840,6 +858,62 @@ func (e *Enc) factText(f *Fact) string {
 	}
 	e.factCache[key] = t
 	return t
+}
+
+// selectPatterns: explicit triggers for a quantified contract clause: every heap read `(select H addr)` whose address
+// mentions all bound variables and contains no conditional, each as an alternative pattern. Without them the solvers
+// choose triggers on their own, and may pick only one side of an equation between two heap reads.
+func selectPatterns(body string, names []string) []string {
+	var out []string
+	seen := map[string]bool{}
+	for i := 0; i+8 < len(body); i++ {
+		if !strings.HasPrefix(body[i:], "(select ") {
+			continue
+		}
+		depth, j := 0, i
+		for ; j < len(body); j++ {
+			if body[j] == '(' {
+				depth++
+			} else if body[j] == ')' {
+				depth--
+				if depth == 0 {
+					break
+				}
+			}
+		}
+		if j >= len(body) {
+			break
+		}
+		t := body[i : j+1]
+		if seen[t] || strings.Contains(t, "(ite ") || strings.Contains(t, "(forall ") || strings.Contains(t, "(exists ") {
+			continue
+		}
+		all := true
+		for _, n := range names {
+			if !regexp.MustCompile(`[ (]` + regexp.QuoteMeta(n) + `[ )]`).MatchString(t) {
+				all = false
+			}
+		}
+		if !all {
+			continue
+		}
+		// keep only outermost such reads
+		inner := false
+		for _, o := range out {
+			if strings.Contains(o, t) {
+				inner = true
+			}
+		}
+		if inner {
+			continue
+		}
+		seen[t] = true
+		out = append(out, ":pattern ("+t+")")
+		if len(out) >= 6 {
+			break
+		}
+	}
+	return out
 }
 
 // evalOpaque: an application of an opaque pure spec function. Revealed (contract `opt reveal NAME`): the application is
